@@ -28,6 +28,10 @@ CHECKS = {
    text="seeded deterministic simulation of many connections (FIN, RST, stalled, re-opened 4-tuples) with network faults, backward clock jumps, closing and non-closing age-based flushes, page limits and a final flush-all against both real assemblers; after every event the lifecycle (completion exactly once, no data after it), leak (pool and page cache empty after flush-all), page-limit and age-flush invariants are audited.",
    note="trusted: harness model; pages in use and pool size are read through verif-tagged accessors; the page-limit bound is audited only in runs whose streams keep no bytes",
    tech="deterministic discrete-event simulation with fault injection; invariant audit after every event"),
+ "C13": dict(cat="exploration", engine="des-defrag", ref="4 C13",
+   text="seeded deterministic simulation of fragmenting senders (headers 20-60 bytes, payloads up to 65515, cuts at multiples of 8), a reordering/duplicating/dropping network with key reuse, a hostile injector and discard timers on a simulated clock in front of the real IPv4 defragmenter (and fragments in any order with duplicates in front of the IPv6 one); a per-key model of the received set decides at every call whether nothing, an error or exactly the original datagram must come back, and every returned byte must have been placed at its offset by a received fragment.",
+   note="trusted: harness fragmenter and per-key model; fragments are built field by field with consistent Length; IPv6 behaviour after completion and IPv6 discard (reads the real clock) are not checked",
+   tech="deterministic discrete-event simulation with network and hostile-input fault injection; reference-model oracle"),
 }
 
 def main():
@@ -63,6 +67,7 @@ def main():
         "add_only": True,
       },
       "engines": [
+        {"name": "des-defrag", "path": "props/defrag", "serves_properties": ["C13"], "kind_free_text": "single-threaded discrete-event simulation: fragmenting senders, lossy network, hostile injector, simulated clock; per-key reference model"},
         {"name": "des-tcp", "path": "sim/tcpsim", "serves_properties": ["C09","C10","C11"], "kind_free_text": "single-threaded discrete-event simulation: TCP senders, lossy network, simulated clock, flush timers; reference delivery/lifecycle model"},
       ],
       "checks": checks,
